@@ -80,12 +80,15 @@ type SvcCase struct {
 	// OverlapServe: a stopped service is served again by another goroutine
 	// as soon as Shutdown returned, whether or not the previous Serve call
 	// has returned yet
-	OverlapServe bool         `json:"overlap_serve,omitempty"`
-	LosePct      int          `json:"lose_pct,omitempty"`
-	PubFailPct   int          `json:"pubfail_pct,omitempty"`
-	SubFailAt    int          `json:"subfail_at,omitempty"` // n-th subscribe fails (1-based), 0 = never
-	Owned        *[2][]string `json:"owned,omitempty"`
-	QueueGroup   *string      `json:"queue_group,omitempty"`
+	OverlapServe bool `json:"overlap_serve,omitempty"`
+	// LingerServe (with OverlapServe): the Serve call of a stopped epoch is
+	// kept on its way out for as long as anything else can run
+	LingerServe bool         `json:"linger_serve,omitempty"`
+	LosePct     int          `json:"lose_pct,omitempty"`
+	PubFailPct  int          `json:"pubfail_pct,omitempty"`
+	SubFailAt   int          `json:"subfail_at,omitempty"` // n-th subscribe fails (1-based), 0 = never
+	Owned       *[2][]string `json:"owned,omitempty"`
+	QueueGroup  *string      `json:"queue_group,omitempty"`
 }
 
 // Submission is the oracle's view of one op.
